@@ -350,7 +350,7 @@ int main(int argc, char **argv)
   std::string variant = vh::st().variant;
   const bool tsan     = variant.find("tsan") != std::string::npos;
   vh::rule(
-      "images: every width x height in 1..17 (thorough 1..33) plus large sizes (every power of two 64..65536 +-1 as width and as height, random widths up to 70000) x 6 writer variants with random pixels in exact-size "
+      "images: every width x height in 1..17 (thorough 1..33) plus large sizes (every power of two 64..65536 +-1 as width and as height, random widths up to 70000, one image of ~12.6 MB output per writer) x 6 writer variants with random pixels in exact-size "
       "buffers, decoded by an independent reader, also with four writers of one format at work at the same time; traces: scenarios (threads 0..8, events per thread in {0,1,8191,8192,8193,20000,random}, "
       "nesting depth <= 6, with/without process name and main-thread events, threads alive together until the log is saved or run one after "
       "the other (exited, ids reused) before it is saved; a third of the scenarios record more and save a second time), each in a fresh process, checked offline by "
@@ -397,6 +397,14 @@ int main(int argc, char **argv)
         fmts.push_back(f);
         Ws.push_back((int)rw.range(1500, 70000));
         Hs.push_back((int)rw.range(1, 4));
+      }
+      // one image per writer whose OUTPUT payload (about 12.6 MB) is larger than a thread's stack: whatever the writer
+      // keeps per image rather than per row shows
+      {
+        int outBytesPerPixel = kOutComp[f] * (f <= PGM ? 1 : 4);
+        fmts.push_back(f);
+        Ws.push_back(1024);
+        Hs.push_back((int)(12600000 / (1024 * outBytesPerPixel)) + (int)rw.range(1, 9));
       }
     }
   long nImg = (long)fmts.size();
